@@ -114,7 +114,8 @@ def _case(draw):
         lead = draw(st.lists(st.integers(1, 3), min_size=0, max_size=3))
         return {"fn": fn, "gaps": gaps, "start": start, "lead": lead, "seed": seed,
                 "dtype": draw(st.sampled_from(["float32", "float64"])),
-                "p_knot": draw(st.sampled_from([0.0, 0.3, 0.7]))}
+                "p_knot": draw(st.sampled_from([0.0, 0.3, 0.7])),
+                "xdtype": draw(st.sampled_from([None, None, "float32", "float64"]))}      # inputs in another precision than the knots
     if fn == "cbrt":
         vals = draw(st.lists(st.one_of(st.floats(-1e30, 1e30), st.sampled_from([0.0, -0.0, 1e-45, -1e-45, 1e-38, -8.0, 27.0,
                                                                                  1.0, -1.0, 1e-300])),
@@ -314,8 +315,10 @@ def run_case(case):
         onknot = rng.uniform(size=n) < case["p_knot"]
         pick = rng.randint(0, len(knots), size=n)
         xs = np.where(onknot, knots[pick], xs)
-        xt = torch.tensor(xs.reshape(lead), dtype=dt)
-        xs = xt.double().numpy().ravel()
+        xt = torch.tensor(xs.reshape(lead), dtype=getattr(torch, case["xdtype"]) if case.get("xdtype") else dt)
+        xs = xt.double().numpy().ravel()        # (comparison in exact arithmetic: float32(0.7) lies below the float64 knot 0.7)
+        if xt.dtype != dt:
+            res.labels.append("mixed_precision")
         # inputs strictly inside (last knot - eps, last knot) are fine; == last knot belongs to the last bin (closed)
         bl = kt.expand(*lead, len(knots)).clone() if lead else kt.clone()
         before_b, before_x = _bits(bl), _bits(xt)
